@@ -77,10 +77,10 @@ func refMatch(ti, tj types.Type, ruleName, stringer, typecast bool) string {
 		}
 		return "typecast|nomatch" // a conversion the tool cannot spell may be reported as unmatched
 	}
-	if isStruct(ti) && isStruct(tj) {
+	if isStruct(ti) && isStruct(tj) && tj.Underlying().(*types.Struct).NumFields() > 0 {
 		return "nested"
 	}
-	return "nomatch"
+	return "nomatch" // (incl. an empty destination struct of another type: nothing to copy member-wise, so it is reported)
 }
 
 func classify(a gmodel.Assignment, lhs, rhs string) string {
@@ -182,9 +182,6 @@ func matrixHarness(lo, hi int) {
 		got := "missing"
 		if ok {
 			got = classify(a, "dst."+name, "src."+name)
-		}
-		if want == "nested" && got == "missing" && dst.Field(i).Type().Underlying().(*types.Struct).NumFields() == 0 {
-			got = "nested" // an empty struct has no member to account for
 		}
 		vrt.AssertMsg("match-decision", strings.Contains("|"+want+"|", "|"+got+"|"), name+" "+ti.String()+" -> "+tj.String()+": got "+got+", want "+want)
 		vrt.AssertMsg("accounted-exactly-once", count["dst."+name] <= 1, name)
